@@ -9,6 +9,8 @@ import (
 	"strings"
 
 	"github.com/dop251/goja"
+
+	"verif/sim/core"
 )
 
 // Event is one entry of the host-observable event log of a run.
@@ -143,6 +145,9 @@ func (h *Host) tick() {
 		}
 	}
 	if h.ticks > h.maxTicks {
+		if h.ticks > h.maxTicks+2000 {
+			core.AbortRun() // the panic below keeps being swallowed
+		}
 		panic(&abortRun{why: "tick budget exceeded"})
 	}
 }
